@@ -69,6 +69,20 @@ func (e *c18Env) eof(p c18Pos) bool {
 	return p.Seg.Start >= e.Segs[len(e.Segs)-1].Stop
 }
 
+// lines returns the lines of the reader: its segments for a block reader, the physical lines otherwise.
+func (e *c18Env) lines() []text.Segment {
+	if e.Block {
+		return e.Segs
+	}
+	var out []text.Segment
+	for i := 0; i < len(e.Src); {
+		j := e.eol(i)
+		out = append(out, text.NewSegment(i, j))
+		i = j
+	}
+	return out
+}
+
 var c18Spaces = []byte("                ")
 
 // lineView = virtual padding spaces, then the bytes from the cursor to the end of the line.
@@ -192,6 +206,8 @@ func (o c18Op) String() string {
 		return fmt.Sprintf("SetPadding(%d)", o.A)
 	case "ValueSlot":
 		return fmt.Sprintf("Value(segment of p%d)", o.A)
+	case "ValueAll":
+		return "Value(every segment inside a line)"
 	case "AdvanceAndSetPadding":
 		return fmt.Sprintf("AdvanceAndSetPadding(%d,%d)", o.A/10, o.A%10)
 	case "FindClosure":
@@ -231,7 +247,7 @@ func c18Menu(full bool) []c18Op {
 		{"SetPadding", 0}, {"SetPadding", 1}, {"SetPadding", 3},
 		{"AdvanceAndSetPadding", 12}, {"AdvanceAndSetPadding", 20},
 		{"SkipSpaces", 0}, {"SkipBlankLines", 0}, {"ReadRune", 0}, {"PrecendingCharacter", 0},
-		{"Value", 0}, {"ValueSlot", 0}, {"ValueSlot", 1}, {"Match", 0}, {"FindSubMatch", 0}, {"ResetPosition", 0},
+		{"Value", 0}, {"ValueSlot", 0}, {"ValueSlot", 1}, {"ValueAll", 0}, {"Match", 0}, {"FindSubMatch", 0}, {"ResetPosition", 0},
 	}
 	for a := 0; a < 16; a++ {
 		if !full && a&1 != 0 && a&6 != 6 {
@@ -456,6 +472,27 @@ func (x *c18Exec) run(path []c18Op) (fail *c18Fail) {
 			want := sg.Value(e.Src)
 			if !bytes.Equal(got, want) {
 				return &c18Fail{"value-differs-from-segment", fmt.Sprintf("step %d Value(%+v) (segment saved as p%d, cursor now at line %d %+v) = %q, the segment's own value is %q", i, sg, o.A, before.Line, before.Seg, got, want), string(want), string(got)}
+			}
+			if after := c18Position(rd); after != before {
+				return &c18Fail{"value-moved-cursor", fmt.Sprintf("step %d Value moved the cursor", i), "", ""}
+			}
+		case "ValueAll":
+			// Value is a function of its argument alone: every segment that lies inside one line of the reader (with the
+			// line's padding when it starts at the head of a padded line), wherever the cursor happens to be
+			for _, L := range e.lines() {
+				for st := L.Start; st <= L.Stop; st++ {
+					for sp := st; sp <= L.Stop; sp++ {
+						sg := text.NewSegment(st, sp)
+						if st == L.Start {
+							sg.Padding = L.Padding
+						}
+						got := rd.Value(sg)
+						want := sg.Value(e.Src)
+						if !bytes.Equal(got, want) {
+							return &c18Fail{"value-differs-from-segment", fmt.Sprintf("step %d Value(%+v) with the cursor at line %d %+v = %q, the segment's own value is %q", i, sg, before.Line, before.Seg, got, want), string(want), string(got)}
+						}
+					}
+				}
 			}
 			if after := c18Position(rd); after != before {
 				return &c18Fail{"value-moved-cursor", fmt.Sprintf("step %d Value moved the cursor", i), "", ""}
